@@ -1,6 +1,6 @@
 #!/usr/bin/env python3
 """usage: tools/calibrate_floors.py <tier>  -- after a clean run of every check on the unchanged tree:
-writes ypv/floors.json[pid][tier] = 35% of the measured counters for the floor keys each check declares."""
+writes ypv/floors.json[pid][tier] = 35% (quick) / 20% (thorough) of the measured counters for the floor keys each check declares."""
 import importlib, json, os, sys
 HERE = os.path.dirname(os.path.dirname(os.path.abspath(__file__)))
 sys.path.insert(0, HERE)
@@ -30,7 +30,9 @@ for i in range(1, 21):
         if k.startswith('case:') or k == 'flag_sets_seen' or k.startswith('exhaustive'):
             continue
         have = ev['coverage']['distinct_nontrivial'] if k == 'distinct_nontrivial' else cnt.get(k, 0)
-        out[k] = max(1, int(have * 0.35))
+        # quick tiers finish in a sixth of their deadline; several thorough tiers run up to their deadline, so on a
+        # machine a few times slower they cover proportionally less: their floors are set lower (20 %)
+        out[k] = max(1, int(have * (0.35 if tier == 'quick' else 0.2)))
     cal.setdefault(pid, {})[tier] = out
 json.dump(cal, open(path, 'w'), indent=1, sort_keys=True)
 print('written', path)
